@@ -272,7 +272,7 @@ fn merged(a: &[u32; 16], b: &[u32; 16]) -> [u32; 16] {
 /// the returned (order, parameters, code_bits) is the cheapest over {order 1 with independently
 /// optimal parameters, order 0 with the optimal single parameter}, code_bits is that cost, every
 /// parameter is <= max_p, the parameter count is 2^order -- starting from a DIRTY finder (C10).
-//@ unit props=C13,C10,C02 tier=quick kind=bounded timeout=1800 funcs="PrcParameterFinder::find; rice::eval_partitions; rice::merge_partitions; PrcBitTable::merge; PrcBitTable::minimizer" stubs="PrcBitTable::from_errors -> some table with entries in [4, 2^28) (c13_from_errors_*)" bound="block 128 (two finest partitions), tables fully symbolic"
+//@ unit props=C13,C10,C02 tier=thorough kind=bounded timeout=1800 funcs="PrcParameterFinder::find; rice::eval_partitions; rice::merge_partitions; PrcBitTable::merge; PrcBitTable::minimizer" stubs="PrcBitTable::from_errors -> some table with entries in [4, 2^28) (c13_from_errors_*)" bound="block 128 (two finest partitions), tables fully symbolic"
 #[kani::proof]
 #[kani::unwind(130)]
 #[kani::stub(PrcBitTable::from_errors, contract_from_errors)]
@@ -316,6 +316,7 @@ fn c13_find_two_partitions() {
     kani::cover!(r.order == 0);
     kani::cover!(r.order == 1);
 }
+
 
 /// contract of `from_errors` restricted to tables whose only competitive parameters are 0 and 1
 /// (all other entries saturated): enough to make the ORDER search fully symbolic while keeping the
